@@ -273,6 +273,10 @@ class TargetSequence(EntityMethod):
         out.append(("features-inherited-plus-one-source-feature",
                     tm.eq(ex.models.feats_term(st, st.get(result, "features")), want)))
         out.append(("carries-record-id", tm.eq(st.get(result, "id").t, pre.get(rec, "id").t)))
+        # ownership (the `fresh` ghost of the design): the fragment handed out is a new record, not one the entity
+        # keeps (add_as_source appends to its argument in place: a kept fragment would grow with every call)
+        kept = [k_ for k_, v_ in st.fields(a["self"]).items() if v_ is result]
+        out.append(("fragment-is-a-fresh-record-not-kept-by-the-entity", tm.B(isinstance(result, VObj) and not kept)))
         return out
 
     def result(self, ex, st, a):
